@@ -1,6 +1,7 @@
 --------------------------- MODULE Trace_Reference ---------------------------
 (* Trace validation for C05: one recorded call of the real code per record; verdicts are     *)
-(* carried as state (total verdicts) and read from the dump.                                 *)
+(* carried as state (total verdicts) and read from the dump.  A clause counts as checked     *)
+(* for a record only where its antecedent holds (Reference.Applies).                         *)
 EXTENDS Reference, Json, IOUtils
 Trace == JsonDeserialize(IOEnv.TRACE_FILE)
 VARIABLES i, ph, failed, scope, triggers, drift, checked
@@ -10,7 +11,7 @@ Init == /\ i \in 1..Len(Trace) /\ ph = "call"
 Next == /\ ph = "call" /\ ph' = "ret" /\ UNCHANGED i
         /\ LET r == Trace[i] IN
            /\ scope' = Premise(r)
-           /\ checked' = IF scope' THEN Clauses(r.op) ELSE {}
+           /\ checked' = IF scope' THEN {c \in Clauses(r.op) : Applies(c, r)} ELSE {}
            /\ failed' = {c \in checked' : ~Holds(c, r)}
            /\ triggers' = {t \in KnownTriggers : TriggerHolds(t, r)}
            /\ drift' = (scope' /\ failed' = {} /\ Drift(r))
